@@ -3,16 +3,17 @@
  "name": "rsz_extent_add",
  "props": ["C08"],
  "level": "U",
- "tier": "wip",
+ "tier": "quick",
  "harness": "h_extent_add",
  "enforce": ["ext2fs_add_extent_entry"],
  "includes": ["resize"],
- "defines": ["EXT2_CUSTOM_MEMORY_ROUTINES", "CAP=8"],
+ "defines": ["EXT2_CUSTOM_MEMORY_ROUTINES", "CAP=3"],
  "unwind": 6,
  "unwind_reason": "ext2fs_add_extent_entry has no loop; the bound only serves the DFCC library loops over assigns-clause targets (unwinding assertions on)",
  "functions": ["resize/extent.c:ext2fs_add_extent_entry"],
- "assumes": ["the table object is well formed on entry: num <= size, list has `size` entries (what ext2fs_create_extent_table and this function maintain); size < 2^32 entries (symbolic allocation size without a product overflow)",
-             "ext2fs.h is compiled with its own hook EXT2_CUSTOM_MEMORY_ROUTINES; ext2fs_resize_mem is a stub that either fails (table must then be unchanged) or installs a new array of the requested byte size into which the entries observed by the contract (ghost index j, last entry) were copied, every other entry arbitrary (over-approximation of realloc)",
+ "assumes": ["the table object is well formed on entry: num <= size, list has exactly `size` entries (what ext2fs_create_extent_table and this function maintain); CAP: the harness table has size <= 3 (rsz_extent_add: num < size; rsz_extent_add_grow: num == size in {1, 2}) and (num, ghost j) are enumerated as constants -- the function is loop-free and only addresses list[num-1] and list[num] (CBMC bounds checks against the tight array), a symbolic num costs 50x",
+             "runs are well formed and locations are block (cluster) / inode numbers < 2^48 (ext4 block numbers have 48 bits, inode numbers 32): XSPEC_WF / XSPEC_LOC_OK of specs/resize_extent_spec.h; well-formedness is re-established (postcondition)",
+             "ext2fs.h is compiled with its own hook EXT2_CUSTOM_MEMORY_ROUTINES; ext2fs_resize_mem is a stub that either fails (table must then be unchanged) or installs a new array (capacity CAP + 100 entries; the request is checked to fit and to hold num + 1 runs) into which the entries observed by the contract (ghost index j, last entry) were copied, every other entry arbitrary (over-approximation of realloc)",
              "pointwise statements are stated for ONE arbitrary ghost entry j and ONE arbitrary probe location x (stand for 'for all')"],
  "native": false
 }
@@ -22,16 +23,17 @@
  "name": "rsz_extent_add_grow",
  "props": ["C08"],
  "level": "U",
- "tier": "wip",
+ "tier": "quick",
  "harness": "h_extent_add_grow",
  "enforce": ["ext2fs_add_extent_entry"],
  "includes": ["resize"],
- "defines": ["EXT2_CUSTOM_MEMORY_ROUTINES", "CAP=8", "GROW"],
+ "defines": ["EXT2_CUSTOM_MEMORY_ROUTINES", "CAP=3", "GROW"],
  "unwind": 6,
  "unwind_reason": "ext2fs_add_extent_entry has no loop; the bound only serves the DFCC library loops over assigns-clause targets (unwinding assertions on)",
  "functions": ["resize/extent.c:ext2fs_add_extent_entry"],
- "assumes": ["the table object is well formed on entry: num <= size, list has `size` entries (what ext2fs_create_extent_table and this function maintain); size < 2^32 entries (symbolic allocation size without a product overflow)",
-             "ext2fs.h is compiled with its own hook EXT2_CUSTOM_MEMORY_ROUTINES; ext2fs_resize_mem is a stub that either fails (table must then be unchanged) or installs a new array of the requested byte size into which the entries observed by the contract (ghost index j, last entry) were copied, every other entry arbitrary (over-approximation of realloc)",
+ "assumes": ["the table object is well formed on entry: num <= size, list has exactly `size` entries (what ext2fs_create_extent_table and this function maintain); CAP: the harness table has size <= 3 (rsz_extent_add: num < size; rsz_extent_add_grow: num == size in {1, 2}) and (num, ghost j) are enumerated as constants -- the function is loop-free and only addresses list[num-1] and list[num] (CBMC bounds checks against the tight array), a symbolic num costs 50x",
+             "runs are well formed and locations are block (cluster) / inode numbers < 2^48 (ext4 block numbers have 48 bits, inode numbers 32): XSPEC_WF / XSPEC_LOC_OK of specs/resize_extent_spec.h; well-formedness is re-established (postcondition)",
+             "ext2fs.h is compiled with its own hook EXT2_CUSTOM_MEMORY_ROUTINES; ext2fs_resize_mem is a stub that either fails (table must then be unchanged) or installs a new array (capacity CAP + 100 entries; the request is checked to fit and to hold num + 1 runs) into which the entries observed by the contract (ghost index j, last entry) were copied, every other entry arbitrary (over-approximation of realloc)",
              "pointwise statements are stated for ONE arbitrary ghost entry j and ONE arbitrary probe location x (stand for 'for all')"],
  "native": false
 }
@@ -72,7 +74,7 @@ long ext2fs_resize_mem(unsigned long old_size, unsigned long size, void *ptr);
 unsigned long long verif_k;
 
 #ifndef CAP
-#define CAP 1024
+#define CAP 3
 #endif
 static struct ext2_extent_entry LIST0[CAP], LIST1[CAP + 100];
 
@@ -94,9 +96,9 @@ errcode_t ext2fs_add_extent_entry(ext2_extent extent, __u64 old_loc, __u64 new_l
 	REQUIRES(G.num0 == extent->num && G.size0 == extent->size && G.sorted0 == extent->sorted && G.j < G.size0)
 	REQUIRES(G.num0 == 0 || (G.j < G.num0 && ENT_EQ(G.ej0, extent->list[G.j])))
 	REQUIRES(G.num0 == 0 || ENT_EQ(G.el0, extent->list[G.num0 - 1]))
-	/* runs are well formed (not empty, inside the 64-bit location space); locations are block / inode numbers, never 2^64 - 1 */
+	/* runs are well formed (not empty, inside the location space); locations are block / inode numbers (< 2^48) */
 	REQUIRES(G.num0 == 0 || (XSPEC_WF(G.ej0) && XSPEC_WF(G.el0)))
-	REQUIRES(old_loc != ~0ULL && new_loc != ~0ULL)
+	REQUIRES(XSPEC_LOC_OK(old_loc) && XSPEC_LOC_OK(new_loc))
 	ENSURES(RET != 0 || (XSPEC_WF(extent->list[LASTIDX(extent)]) && (G.num0 == 0 || XSPEC_WF(extent->list[G.j]))))
 	/* failure: only from the allocator, table unchanged */
 	ENSURES(RET == 0 || (G.resize_calls == 1 && extent->num == G.num0 && extent->size == G.size0 && extent->sorted == G.sorted0))
@@ -154,52 +156,52 @@ long ext2fs_resize_mem(unsigned long old_size, unsigned long size, void *ptr)
  * later access split over both objects (5 M clauses): rsz_extent_add = the array is not full (ext2fs_resize_mem must not be
  * called), rsz_extent_add_grow = the array is full (num == size; ext2fs_resize_mem must be called exactly once).
  */
-static void run(void)
+static void run(const unsigned long long num, const unsigned long long j)	/* num and j are CONSTANTS at every call (symbolic element indices cost 50x) */
 {
 	struct _ext2_extent X;
 	struct ext2_extent_entry *list;
-	LOAD_IN();
-	ASSUME(IN.size >= 1 && IN.size <= CAP && IN.num <= IN.size);
-#ifdef GROW
-	ASSUME(IN.num == IN.size);
-#else
-	ASSUME(IN.num < IN.size);
-#endif
+	ASSUME(IN.size >= 1 && IN.size <= CAP);
 	list = LIST0;
-	X.list = list; X.cursor = IN.cursor; X.size = IN.size; X.sorted = IN.sorted;
+	X.list = list; X.cursor = IN.cursor; X.sorted = IN.sorted; X.num = num;
 #ifdef GROW
-	X.num = IN.size;
+	X.size = num;
 #else
-	X.num = IN.num;
+	ASSUME(num < IN.size);
+	X.size = IN.size;
 #endif
-	ASSUME(IN.j < IN.num || (IN.num == 0 && IN.j == 0));
-	if (IN.num > 0) {
-		list[IN.j].old_loc = IN.ej_old; list[IN.j].new_loc = IN.ej_new; list[IN.j].size = IN.ej_size;
-		if (IN.j != IN.num - 1) {
-			list[IN.num - 1].old_loc = IN.el_old; list[IN.num - 1].new_loc = IN.el_new; list[IN.num - 1].size = IN.el_size;
+	if (num > 0) {
+		list[j].old_loc = IN.ej_old; list[j].new_loc = IN.ej_new; list[j].size = IN.ej_size;
+		if (j != num - 1) {
+			list[num - 1].old_loc = IN.el_old; list[num - 1].new_loc = IN.el_new; list[num - 1].size = IN.el_size;
 		}
 	}
-	G.num0 = X.num; G.size0 = X.size; G.sorted0 = X.sorted; G.j = IN.j; G.x = IN.x; G.resize_calls = 0;
-	G.ej0 = list[IN.j];
-	if (IN.num > 0) G.el0 = list[IN.num - 1];
-	ASSUME(IN.num == 0 || (XSPEC_WF(G.ej0) && XSPEC_WF(G.el0)));
-	ASSUME(IN.old_loc != ~0ULL && IN.new_loc != ~0ULL);
+	G.num0 = X.num; G.size0 = X.size; G.sorted0 = X.sorted; G.j = j; G.x = IN.x; G.resize_calls = 0;
+	G.ej0 = list[j];
+	if (num > 0) G.el0 = list[num - 1];
+	ASSUME(num == 0 || (XSPEC_WF(G.ej0) && XSPEC_WF(G.el0)));
+	ASSUME(XSPEC_LOC_OK(IN.old_loc) && XSPEC_LOC_OK(IN.new_loc));
 
 	errcode_t r = ext2fs_add_extent_entry(&X, IN.old_loc, IN.new_loc);
 
 	if (r == 0) {
 		struct ext2_extent_entry last = X.list[X.num - 1];
-		CHECK(XSPEC_WF(last) && (G.num0 == 0 || XSPEC_WF(X.list[IN.j])), "runs stay well formed");
+		/* the two legal outcomes (code facts), then cut: the map-view statements below follow from them by arithmetic alone */
+		int appended = X.num == num + 1 && last.old_loc == IN.old_loc && last.new_loc == IN.new_loc && last.size == 1;
+		int grown = X.num == num && CONTINUES_LAST(IN.old_loc, IN.new_loc) && last.old_loc == G.el0.old_loc && last.new_loc == G.el0.new_loc && last.size == G.el0.size + 1;
+		CHECK(appended || grown, "either the run (old, new, 1) was appended or the last run, which old and new both continue, grew by one");
+		CHECK(!(appended && CONTINUES_LAST(IN.old_loc, IN.new_loc)), "a continuation is always coalesced");
+		ASSUME(appended || grown);	/* cut (just checked) */
+		CHECK(XSPEC_WF(last) && (G.num0 == 0 || XSPEC_WF(X.list[j])), "runs stay well formed");
 		CHECK(X.num <= X.size && X.num >= G.num0 && X.num <= G.num0 + 1, "num grows by at most one and stays within the capacity");
 		CHECK(XSPEC_COVERS(last, IN.old_loc) && XSPEC_IMAGE(last, IN.old_loc) == IN.new_loc, "old -> new is in the map afterwards (last run)");
-		CHECK(G.num0 == 0 || !XSPEC_COVERS(G.ej0, IN.x) || (XSPEC_COVERS(X.list[IN.j], IN.x) && XSPEC_IMAGE(X.list[IN.j], IN.x) == XSPEC_IMAGE(G.ej0, IN.x)),
+		CHECK(G.num0 == 0 || !XSPEC_COVERS(G.ej0, IN.x) || (XSPEC_COVERS(X.list[j], IN.x) && XSPEC_IMAGE(X.list[j], IN.x) == XSPEC_IMAGE(G.ej0, IN.x)),
 		      "what run j mapped before it maps to the same image afterwards");
-		CHECK(G.num0 == 0 || IN.x == IN.old_loc || !XSPEC_COVERS(X.list[IN.j], IN.x) || XSPEC_COVERS(G.ej0, IN.x), "no existing run starts to map anything except `old`");
+		CHECK(G.num0 == 0 || IN.x == IN.old_loc || !XSPEC_COVERS(X.list[j], IN.x) || XSPEC_COVERS(G.ej0, IN.x), "no existing run starts to map anything except `old`");
 		if (X.num == G.num0 + 1) {
 			CHECK(last.size == 1 && last.old_loc == IN.old_loc && last.new_loc == IN.new_loc, "appended run is (old, new, 1)");
 			if (G.num0 > 0) {
 				CHECK((X.sorted != 0) == (G.sorted0 != 0 && XSPEC_BEFORE(G.el0, last)), "sorted flag == runs still ordered and disjoint");
-				CHECK(ENT_EQ(X.list[IN.j], G.ej0), "existing runs untouched");
+				CHECK(ENT_EQ(X.list[j], G.ej0), "existing runs untouched");
 				REACH("appended");
 			} else {
 				CHECK(X.sorted == G.sorted0, "first run: flag untouched");
@@ -219,12 +221,26 @@ static void run(void)
 #endif
 	} else {
 		CHECK(G.resize_calls == 1 && IN.ret_resize != 0 && r == IN.ret_resize, "only a failed reallocation fails, and is reported");
-		CHECK(X.num == G.num0 && X.size == G.size0 && X.sorted == G.sorted0 && X.list == list && ENT_EQ(list[IN.j], G.ej0), "failure leaves the table unchanged");
+		CHECK(X.num == G.num0 && X.size == G.size0 && X.sorted == G.sorted0 && X.list == list && ENT_EQ(list[j], G.ej0), "failure leaves the table unchanged");
 #ifdef GROW
 		REACH("alloc_failed");
 #endif
 	}
 	REACH("end");
 }
-void h_extent_add(void) { run(); }
-void h_extent_add_grow(void) { run(); }
+#define CASE(n, jj) else if (IN.num == (n) && IN.j == (jj)) run(n, jj)
+#if CAP != 3
+#error "the case lists below cover CAP == 3"
+#endif
+void h_extent_add(void)
+{
+	LOAD_IN();
+	if (IN.num == 0) run(0, 0);
+	CASE(1, 0); CASE(2, 0); CASE(2, 1);
+}
+void h_extent_add_grow(void)
+{
+	LOAD_IN();
+	if (0) ;
+	CASE(1, 0); CASE(2, 0); CASE(2, 1);	/* full tables of capacity 1 and 2 */
+}
